@@ -448,6 +448,29 @@ func checkC11(c *Ctx, w *World) {
 				okExit = false
 			}
 		}
+		// no iteration path may skip the element: the recursion and the append lie on every path to the back edge
+		okEvery := false
+		for _, sc := range selfCalls {
+			if !l.Blocks[sc.Block()] {
+				continue
+			}
+			okEvery = true
+			for _, la := range l.Latch {
+				if !sc.Block().Dominates(la) {
+					okEvery = false
+				}
+			}
+			eachInstr(kfm, func(in ssa.Instruction) {
+				if call, ok := in.(*ssa.Call); ok && calleeOf(&call.Call).Builtin == "append" && l.Blocks[call.Block()] && isExtractOf(call.Call.Args[1], sc, 0) {
+					for _, la := range l.Latch {
+						if !call.Block().Dominates(la) {
+							okEvery = false
+						}
+					}
+				}
+			})
+		}
+		c.check(okEvery, "C11.fanout", construct+": every element", p.ipos(l.Header.Instrs[0]), "the recursive call and the append dominate the back edge: no element is skipped", "an iteration path reaches the next index without recursing into the element (an element — e.g. a nil one — is skipped instead of traversed)")
 		c.check(k == "counted-up" && okCnt && okApp && okExit, "C11.fanout", construct, p.ipos(l.Header.Instrs[0]), "visits indices 0,1,…,Len()-1 in order ("+why+"), appends each recursive result in order, leaves early only with the recursive error", "the repeated-field fan-out does not visit every element once, in order, accumulating in order")
 	}
 
